@@ -7,9 +7,11 @@ import (
 	"fmt"
 	"io"
 	"strings"
+	"sync"
 
 	"github.com/tobgu/qframe"
 	qcsv "github.com/tobgu/qframe/config/csv"
+	"github.com/tobgu/qframe/config/newqf"
 	qsql "github.com/tobgu/qframe/config/sql"
 
 	"verif/harness/core"
@@ -80,9 +82,11 @@ func csvFaultDocs() []string {
 		"a,b\n1,2,3\n4,5\n", "a,b\n1,2\n3,4,5,6\n", "a,b,c\n1,2\n",
 		// long documents (index csvLongDocsFrom..): rows longer than the reader's 1 KiB / 2 KiB / 4 KiB buffer sizes
 		"id,s\n1," + strings.Repeat("p", 1100) + "\n2,q\n", "id,s,t\n1,x," + strings.Repeat("r", 2100) + "\n2,y,z\n3,w,v\n",
-		"id,s\n1,\"" + strings.Repeat("u", 4200) + "\"\n2,q\n"}
+		"id,s\n1,\"" + strings.Repeat("u", 4200) + "\"\n2,q\n",
+		// fields that start or end with blanks and tabs, blanks before a quote, lines and documents that start with bytes
+		// a reader might give a meaning to (comment characters, NUL, a byte order mark)
+		"name,city\nbob, NYC\nann, LA\n", "a,b\n1, \"x,y\"\n2,  z\n", "a,b\n 1,\t2\n3 , 4 \n", "a,b\n#c,1\n\x00d,2\n", "\ufeffa,b\n1,2\n", "a,b\n1, \n ,2\n"}
 }
-
 
 func csvHeaderlessDocs() []string {
 	return []string{"1,2\n3,4\n5,6\n", "1,x\n", "\"a\nb\",1\n2,\"c\"\n"}
@@ -93,7 +97,34 @@ func jsonFaultDocs() []string {
 		`[{"a":"}]"},{"a":"[{"}]`, " [ {\"a\" : 1 } ,\n {\"a\" : 2 } ] "}
 }
 
+var (
+	c15framesOnce sync.Once
+	c15frames     []qframe.QFrame
+)
+
 func faultFrames() []qframe.QFrame {
+	c15framesOnce.Do(func() { c15frames = buildFaultFrames() })
+	return c15frames
+}
+
+func buildFaultFrames() []qframe.QFrame {
+	// wide frames without string columns: 900 int / 700 bool+float columns (a header line and rows of more than 4 KiB)
+	wide := map[string]interface{}{}
+	wide2 := map[string]interface{}{}
+	var wideNames, wide2Names []string
+	for c := 0; c < 900; c++ {
+		n := fmt.Sprintf("c%03d", c)
+		wide[n] = []int{100000 + c, -c, 7}
+		wideNames = append(wideNames, n)
+		if c < 700 {
+			if c%2 == 0 {
+				wide2[n] = []bool{true, false, c%3 == 0}
+			} else {
+				wide2[n] = []float64{float64(c) + 0.125, -1e10, 0}
+			}
+			wide2Names = append(wide2Names, n)
+		}
+	}
 	big := make([]string, 400)
 	for i := range big {
 		big[i] = fmt.Sprintf("value-%04d-%s", i, strings.Repeat("p", i%17))
@@ -105,6 +136,9 @@ func faultFrames() []qframe.QFrame {
 		qframe.New(map[string]interface{}{"a": []int{1, 2, 3}, "b": []string{"x", "y,\"z\"", "w\nv"}, "f": []float64{1.5, 2.5, 3}}),
 		qframe.New(map[string]interface{}{"s": big, "i": bigInts}), // CSV larger than the 4096-byte bufio buffer of encoding/csv
 		qframe.New(map[string]interface{}{"a": []int{1, 2, 3}}).Sort(qframe.Order{Column: "a", Reverse: true}).Slice(0, 2),
+		qframe.New(wide, newqf.ColumnOrder(wideNames...)),
+		qframe.New(wide2, newqf.ColumnOrder(wide2Names...)),
+		qframe.New(map[string]interface{}{"a": []int{1, 2, 3}, "b": []bool{true, false, true}, "f": []float64{1.5, 2.5, -3}}),
 	}
 }
 
